@@ -710,7 +710,15 @@ def _check_genf(case, b, info):
         want = sum(truth(b.spec.root, n).values()) if n <= M else b.spec.count_objects_of_size(n)
         if co[n] != want:
             return "get_genf returned %s: coefficient of x^%d is %d, there are %d objects" % (info["str"], n, co[n], want)
-    # identity check: g extends to a solution of the whole system
+    return _genf_solves_system(b, info, g)
+
+
+def _genf_solves_system(b, info, g, vanish=True):
+    """identity check: g extends to a solution of the whole system (None) or why not; vanish=False: only "satisfies
+    every equation identically" (a BRANCH of the solved system, possibly the wrong one), without the initial conditions"""
+    import sympy
+    from itertools import chain
+
     eqs = tuple(b.eqs)
     funcs = set(chain.from_iterable(eq.atoms(sympy.Function) for eq in eqs))
     sols = sympy.solve(eqs, funcs, dict=True, cubics=False, quartics=False, quintics=False)
@@ -724,7 +732,7 @@ def _check_genf(case, b, info):
             if sympy.simplify(eq.lhs.subs(sol) - eq.rhs.subs(sol)) != 0:
                 why = "solution with root %s does not satisfy %s identically" % (info["str"], eq)
                 break
-        if why is None:
+        if why is None and vanish:
             for c, r in b.spec.rules_dict.items():
                 f = b.spec.get_function(c)
                 if f not in sol:
@@ -764,10 +772,14 @@ def oracle(case, res):
     if not b.rules:
         return None
     M = _oracle_order(b)
+    # EVERY failure of the case is collected; the first one that is not an open known finding is reported (a masked
+    # one only when nothing else is wrong with the case)
+    failures = []
     for i, (r, eq) in enumerate(zip(b.rules, b.eqs)):
         st = res["status"][i]
         if st == 3:
-            return "rule %d: get_equations yielded %r instead of an equation" % (i, eq)
+            failures.append("rule %d: get_equations yielded %r instead of an equation" % (i, eq))
+            continue
         if st == 1:
             continue  # F = NOTIMPLEMENTED(x): no claim made
         L, R = evaluate(b, eq, M)
@@ -776,30 +788,119 @@ def oracle(case, res):
             dr = {tuple(k): v for k, v in R}
             bad = sorted(k for k in set(dl) | set(dr) if dl.get(k, 0) != dr.get(k, 0))[0]
             names = sorted(b.vid, key=lambda k: b.vid[k]) + ["(foreign symbol)"] * len(bad)
-            return "equation %s of the %s rule for %r is not satisfied by the true series: coefficient of %s is %d on the left, %d on the right" % (
+            failures.append("equation %s of the %s rule for %r is not satisfied by the true series: coefficient of %s is %d on the left, %d on the right%s" % (
                 eq, KINDS[res["kinds"][i]], r.comb_class,
-                "*".join("%s^%d" % (nm, e) for nm, e in zip(names, bad)), dl.get(bad, 0), dr.get(bad, 0))
+                "*".join("%s^%d" % (nm, e) for nm, e in zip(names, bad)), dl.get(bad, 0), dr.get(bad, 0),
+                _equation_finding_tag(b, r, eq, M)))
     if case.get("genf") and "genf" in res:
         for which, info in zip(("", " (solver's solutions listed in reverse order)"), res["genf"]):
             why = _check_genf(case, b, info)
             if why:
-                return why + which
-    return None
+                if which and len(res["genf"]) == 2 and _check_genf(case, b, res["genf"][0]) is None:
+                    why += _wrong_branch_tag(b, info, why)
+                failures.append(why + which)
+    for why in failures:
+        if finding_match(case, why) is None:
+            return why
+    return failures[0] if failures else None
+
+
+# ---- what exactly the three open findings are (tags written by the oracle, read by finding_match)
+TAG_COLLISION = " [repaired: satisfied once a child parameter that several parent parameters are mapped to is given the PRODUCT of their variables]"
+TAG_UNMAPPED = " [repaired: satisfied once every child parameter that no parent parameter is mapped to is set to 1]"
+TAG_BRANCH = " [wrong branch: the returned function solves the system and agrees with the counts on the 7 terms get_genf compares]"
+
+
+def _equation_finding_tag(b, rule, eq, M):
+    """'' unless the failing equation is EXPLAINED by one of the two open equation findings: the rule's constructor
+    (for a reverse rule: the original rule's, whose equation ReverseRule.get_equation falls back to) is a
+    DisjointUnion / CartesianProduct whose dictionaries have the defect's shape, and the equation IS satisfied by the
+    true series once every child function is applied to what the dictionaries say (child parameter c := product of
+    the parent parameters mapped to c; := 1 when there is none) - i.e. the defect's own repair, and nothing else,
+    makes the failure go away."""
+    import sympy
+    from sympy.core.function import AppliedUndef
+    from comb_spec_searcher.strategies.constructor import CartesianProduct, DisjointUnion
+    from comb_spec_searcher.strategies.rule import ReverseRule, VerificationRule
+
+    try:
+        if isinstance(rule, VerificationRule):
+            return ""
+        # a reverse rule's equation is the original rule's, solved for the flipped child or (fallback) as it is
+        src = rule.original_rule if isinstance(rule, ReverseRule) else rule
+        cons = src.constructor
+        if not isinstance(cons, (CartesianProduct, DisjointUnion)):
+            return ""
+        heads = {src.comb_class.get_function(b.label).func} | {c.get_function(b.label).func for c in src.children}
+        if {f.func for f in eq.atoms(AppliedUndef)} - heads:
+            return ""                         # not an equation between the classes of `src`
+        collision = unmapped = False
+        want = {}
+        for child, ep in zip(src.children, cons.extra_parameters):
+            args = [sympy.var("x")]
+            for cp in child.extra_parameters:
+                parents = [pv for pv, cv in ep.items() if cv == cp]
+                if len(parents) > 1 and isinstance(cons, CartesianProduct):
+                    collision = True
+                if not parents:
+                    unmapped = True
+                args.append(sympy.Mul(*[sympy.var(pv) for pv in parents]) if parents else sympy.Integer(1))
+            f = child.get_function(b.label)
+            new = f.func(*args)
+            if f in want and want[f] != new:
+                return ""                     # one class twice with different dictionaries: not decided here
+            want[f] = new
+        if not (collision or unmapped):
+            return ""
+        parent_head = src.comb_class.get_function(b.label).func
+        m = {}
+        for f in eq.atoms(AppliedUndef):
+            for g, new in want.items():
+                if f.func == g.func and f.func != parent_head:
+                    m[f] = new
+        L, R = evaluate(b, sympy.Eq(eq.lhs.xreplace(m), eq.rhs.xreplace(m)), M)
+        if L != R:
+            return ""
+        return TAG_COLLISION if collision else TAG_UNMAPPED
+    except Exception:  # pylint: disable=broad-except
+        return ""
+
+
+def _wrong_branch_tag(b, info, why):
+    """'' unless the failure of the reversed-solver run is the open finding and nothing else: get_genf returned a
+    function, the only thing wrong with it is a Taylor coefficient BEYOND the 7 terms the library compares (so the
+    library's own check could not tell the branches apart), and the function really is a branch of the solved system"""
+    import re as _re
+    import sympy
+
+    try:
+        if "exception" in info:
+            return ""
+        m = _re.search(r": coefficient of x\^(\d+) is -?\d+, there are \d+ objects$", why)
+        if not m or int(m.group(1)) < 7:
+            return ""
+        if _genf_solves_system(b, info, sympy.sympify(info["genf"]), vanish=False) is not None:
+            return ""
+        return TAG_BRANCH
+    except Exception:  # pylint: disable=broad-except
+        return ""
 
 
 def finding_match(case, why):
-    """narrow: the legacy shapes only (integer modes 1 / 3 of the two-factor product / the expansion), and
-    only when the input really has the shape of the finding (two parameters tracking one letter / a letter the
-    parent does not track); name-permuting modes, per-child mode lists and explicit maps never match"""
-    if case["kind"] == "spec" and case["cfg"].get("planted", 0) >= 7 and why and "reverse order" in why:
+    """narrow: a failure belongs to an open finding only when the oracle has established the finding's own root cause
+    on the real objects of the case (tags above): the failing equation is satisfied after exactly the repair the
+    finding describes, resp. get_genf returned a true branch of the system that agrees with the counts on the terms
+    the library compares.  Everything else on the same inputs (another coefficient pattern that the repair does not
+    cure, exceptions, functions that are no solution, failures of the as-is solver order) matches nothing."""
+    if not why:
+        return None
+    if (case["kind"] == "spec" and case["cfg"].get("planted", 0) >= 7
+            and why.endswith(TAG_BRANCH + " (solver's solutions listed in reverse order)")):
         return "genf-selection-depends-on-solver-order"
-    if case["kind"] == "rule" and why and "not satisfied" in why:
-        r = case["rule"]
-        stats = r["class"]["stats"]
-        letters = [l for _, l in stats]
-        if r["strategy"] == "remove_front" and r["mode"] == 1 and len(set(letters)) < len(letters):
+    if case["kind"] == "rule" and "not satisfied" in why:
+        if why.endswith(TAG_COLLISION):
             return "product-equation-parameter-collision"
-        if r["strategy"] == "expansion" and r["mode"] == 3 and set(r["class"]["alphabet"]) - set(letters):
+        if why.endswith(TAG_UNMAPPED):
             return "union-equation-unmapped-child-parameter"
     return None
 
